@@ -23,6 +23,24 @@ def digest_one(i, extra):
     cfg = E.swarm_config(rng, E.POLICIES, ttls=(600,))
     scn = E.scenario_of(prog, cfg, rng.randint(1, 2), rng.choice(["STANDARD", "EXPRESS"]), rng, stagger=(0.0, 1.0))
     from lsfsim.runner import run_scenario
+    if i % 3 == 1:
+        # the Redis-backed configurations (shared store, invalidation deliveries, one or two instances, both front ends)
+        cfg["store"] = "redis"
+        cfg["nodes"] = rng.choice([1, 2])
+        cfg["transport"] = rng.choice(["asyncio", "blocking"])
+        for ex in scn["executions"]:
+            ex["node"] = rng.randrange(cfg["nodes"])
+        from monitors.surfaces import SurfaceMonitor
+        res = run_scenario(scn, seed, monitors=[SurfaceMonitor()], horizon=500)
+        srv = res.world.redis_server
+        return [i, res.sim.hexdigest(), res.sim.steps, srv.stats["commands"], srv.stats["invalidations_delivered"]]
+    if i % 3 == 2 and i % 2:
+        # a store-level operation sequence of the C20 harness
+        from checks import c20
+        kind = c20.KINDS[(i // 6) % 4]
+        h = c20.run_sequence(c20.gen_sequence(seed, kind), seed)
+        return [i, common.sha([h.probes, [f["detail"] for f in h.findings], h.server.stats,
+                               sorted(h.server.data.keys()), h.sim.disk.files]), len(h.findings)]
     res = run_scenario(scn, seed)
     return [i, res.sim.hexdigest(), res.sim.steps]
 
